@@ -1,5 +1,5 @@
 #!/usr/bin/env python3
-"""C08 -- layout analysis conserves content and keeps its hierarchy well-formed (DESIGN.md 3.C08)."""
+"""C08 -- layout analysis conserves content and keeps its hierarchy well-formed (DESIGN.md section 4, C08)."""
 import io
 import os
 import sys
@@ -44,7 +44,7 @@ MANIFEST_ENTRY = {
             "input boxes, each once, and the loop ends within 2(n^2+n)+2 iterations; sorting is a permutation, so boxes "
             "are numbered 0..n-1 in output order; every analysed line ends in exactly one line break.",
     "note": "Trusted: Coq kernel, hand model tied by differential runs (exact), C20's plane model.",
-    "design_ref": "DESIGN.md 3.C08",
+    "design_ref": "DESIGN.md section 4, C08",
 }
 
 
